@@ -350,7 +350,7 @@ pub fn run(eng: &Engine) {
     eng.set_rule("(encoder) every alphabet size 2..=256 in every run x rank orders (random, ascending, descending, all ties, few distinct counts) x placements of unused symbols (dense, sparse, ending at 255, random gaps): code from HuffmanTable::build_from_counts is complete (Kraft sum exactly 1), depth <= 11, prefix-free, no code for absent symbols, canonical; its description (direct or FSE-compressed with size byte < 128) parses back - in the specification and in this crate's decoder, consuming exactly the bytes written - to the same code lengths and the canonical table (every index of the 2^maxbits table); 1- and 4-stream encodings decode to the same literals, stream split as the format requires; production path compress_literals (+ treeless reuse) -> literal section decoder; (decoder) every direct description of 1..6 weights over 0..11 exhaustively and generated descriptions up to 255 weights (direct and FSE-compressed by the model writer; valid, perturbed, weight > 11): accept/reject and table == specification; non-trivial = n >= 3 with an unsorted rank order / FSE-compressed or >= 3 symbols / any invalid description; distinct by code-shape hash");
     eng.assume("descriptions with more than 255 weights through the FSE path are not generated (the decoder is lenient there)");
     // all 255 alphabet sizes in every run, several orders each
-    let reps = eng.tier.pick(40, 2_400);
+    let reps = eng.tier.pick(200, 6_000);
     let total = 255 * reps;
     let seed = eng.seed;
     eng.run_enumerated("encoder_all_alphabet_sizes", "alphabet sizes 2..=256 x orders x placements x seeds (all 255 sizes present; orders/placements sampled)", total, 64, move |i, c| {
@@ -369,7 +369,7 @@ pub fn run(eng: &Engine) {
     if let Some(s) = eng.stages.lock().unwrap().last_mut() {
         s.exhaustive = false;
     }
-    let n_long = eng.tier.pick(300, 10_000);
+    let n_long = eng.tier.pick(2_000, 40_000);
     eng.run_stage(
         "encoder_long_literals",
         n_long,
@@ -383,7 +383,7 @@ pub fn run(eng: &Engine) {
         (direct_total, "every direct weight description of 1..=6 weights over weights 0..=11")
     };
     eng.run_enumerated("decoder_direct_weights", dd, dt, 4096, direct_item);
-    let n_desc = eng.tier.pick(15_000, 900_000);
+    let n_desc = eng.tier.pick(100_000, 3_000_000);
     eng.run_stage("decoder_descriptions", n_desc, || (2u16..=256, any::<u32>(), 0u8..=2, any::<bool>()).prop_map(|(n, seed, kind, fse)| DescCase { n, seed, kind, fse }), check_desc);
 }
 
